@@ -243,7 +243,11 @@ def run(tier, workers=None):
         "exhaustive": True,
         "rule": "all href lists of length <= %d over %d href kinds, for calendar- and addressbook-multiget, at one representative of every abstract state reached by BFS depth %d" % (maxlen, len(KINDS), depth),
     }
+    from . import sizes
+
+    cov.update(sizes.run_sweep(rep, "C17", ['multiget']))
     return rep.finish("model_checking", cov, assumptions=[
+        "size sweep: the collection is grown member by member to 140 and the same view is checked at every size up to 8 and around 16, 32, 64, 100 and 128",
         "two hrefs are the same iff equal after dropping scheme/authority and percent-decoding; doubled slashes stay distinct",
         "an absolute URL with a foreign host and an href with an encoded slash may be served or answered 404 (the property does not settle them); if served the data must be right",
         "report data is compared with GET bytes modulo CRLF->LF (XML text normalisation)",
